@@ -70,7 +70,9 @@ def gen(r, tier, i):
         gen = {'at': r.choice([0.0, 1.0, 2.0]), 'n': r.randint(1, 2), 'flow': r.choice(['none', 'none', 'chain']),
                # a flow step without dependencies deletes the generated compartment again in a later step phase
                'kill_after': r.choice([None, None, 1.0, 2.0])}
-    return {'gen': gen, 'deps': deps, 'comp': comp, 'order': order, 'nder': nder,
+    # legacy style: some flow steps are listed under processes (their flow entries stay in the flow)
+    legacy = [k for k in range(n) if i >= len(_ENUM) * 4 and r.random() < 0.2]
+    return {'gen': gen, 'legacy': legacy, 'deps': deps, 'comp': comp, 'order': order, 'nder': nder,
             'der_in': [r.choice(['steps', 'processes']) for _ in range(nder)],
             'procs': [r.choice([0.5, 1.0, 1.5, 2.0]) for _ in range(r.randint(1, 3))],
             'calls': [[r.choice([1.0, 2.0, 2.5, 3.0]), r.choice([True, False, 'update'])] for _ in range(r.randint(1, 3))] + [[1.0, 'update']]}
@@ -99,7 +101,7 @@ def run(spec):
         topo[name] = {'log': ('log',)}
     for k in spec['order']:
         name = 's%d' % k
-        put(steps, comp[k], name, LedgerStep({'sid': name}))
+        put(processes if k in spec.get('legacy', []) else steps, comp[k], name, LedgerStep({'sid': name}))
         rel = []
         for j in deps[k]:
             rel.append(tuple(comp[j][len(comp[k]):]) + ('s%d' % j,))
